@@ -120,7 +120,20 @@ pub fn gen_project(t: &mut Tape) -> Project {
     let mut types: Vec<TypeDef> = vec![];
     for i in 0..ntypes {
         let is_enum = i > 0 && t.chance(1, 3);
-        let name = format!("{}{}", TYPE_WORDS[t.pick(TYPE_WORDS.len())], i);
+        let mut name = format!("{}{}", TYPE_WORDS[t.pick(TYPE_WORDS.len())], i);
+        if i > 0 && t.chance(1, 4) {
+            // a name that differs from an earlier one only in the case of one letter (UserId /
+            // UserID): any ordering that ignores case leaves such a pair to the hash seed
+            let earlier: &TypeDef = &types[t.pick(types.len())];
+            let mut chars: Vec<char> = earlier.name.chars().collect();
+            if let Some(pos) = chars.iter().rposition(|c| c.is_ascii_lowercase()) {
+                chars[pos] = chars[pos].to_ascii_uppercase();
+            }
+            let variant: String = chars.into_iter().collect();
+            if !types.iter().any(|x| x.name == variant) {
+                name = variant;
+            }
+        }
         let mut members = vec![];
         if is_enum {
             let nv = t.range(1, 4);
